@@ -25,8 +25,8 @@ func (c *c06Conn) write(data []byte) error {
 	c06Wire = append(c06Wire, data)
 	return nil
 }
-func (c *c06Conn) writev(data ...[]byte) error            { return nil }
-func (c *c06Conn) close() error                           { return nil }
+func (c *c06Conn) writev(data ...[]byte) error { return nil }
+func (c *c06Conn) close() error                { return nil }
 
 var c06Wire [][]byte // what the stubbed waitForSend was asked to send, in order
 
@@ -36,16 +36,16 @@ func vfstub_waitForSend(s *Session, hdr header, body []byte) error {
 }
 
 type c06World struct {
-	mem    []byte
-	bmA    *bufferManager
-	bmB    *bufferManager
-	A, B   *Session
-	sA, sB *Stream
-	conn   *c06Conn
-	model  [48]byte // the bytes the writer produced, in order
-	mlen   int      // produced
-	flushed int     // flushed successfully
-	hold    int
+	mem      []byte
+	bmA      *bufferManager
+	bmB      *bufferManager
+	A, B     *Session
+	sA, sB   *Stream
+	conn     *c06Conn
+	model    [48]byte // the bytes the writer produced, in order
+	mlen     int      // produced
+	flushed  int      // flushed successfully
+	hold     int
 	consumed int
 }
 
